@@ -92,16 +92,28 @@ type Wrapper struct {
 	Inner interface{}
 }
 
-func NewTagged(secret string) Tagged {
-	in := TagInner{X: 1, Secret: secret, low: len(secret), Name: "n1"}
+// NewTagged builds a Tagged whose fields hidden under the bexpr tag hold sb, those hidden under the json tag hold
+// sj, and the unexported ones hold sp: two values built with different sb (sj, sp) are indistinguishable to an
+// evaluator using the bexpr (json, any) tag.
+func NewTagged3(sb, sj, sp string) Tagged {
+	in := TagInner{X: 1, Secret: sb, low: len(sp), Name: "n1" + sj}
 	return Tagged{
-		Plain: "plain", Renamed: "renamed", Hidden: secret, JHidden: secret + "j", Opt: "opt", OnlyOpt: "oo",
-		Swap: "swap", Plain2: "plain2", private: secret + "p",
-		Inner: in, PInner: &TagInner{X: 2, Secret: secret, low: 7, Name: "n2"},
-		List:     []TagInner{in, {X: 3, Secret: secret + "3", Name: "n3"}},
-		M:        map[string]TagInner{"a": in, "b": {X: 4, Secret: "s4" + secret, Name: "n4"}},
-		Embedded: Embedded{EmbField: "emb"}, hiddenEmb: hiddenEmb{Promoted: secret},
+		Plain: "plain", Renamed: "renamed", Hidden: sb, JHidden: sj, Opt: "opt", OnlyOpt: "oo",
+		Swap: "swap", Plain2: "plain2", private: sp,
+		Inner: in, PInner: &TagInner{X: 2, Secret: sb, low: 7 + len(sp), Name: "n2" + sj},
+		List:     []TagInner{in, {X: 3, Secret: sb + "3", low: len(sp), Name: "n3" + sj}},
+		M:        map[string]TagInner{"a": in, "b": {X: 4, Secret: "s4" + sb, low: len(sp), Name: "n4" + sj}},
+		Embedded: Embedded{EmbField: "emb"}, hiddenEmb: hiddenEmb{Promoted: sp},
 	}
+}
+
+func NewTagged(secret string) Tagged { return NewTagged3(secret, "", secret+"p") }
+
+func secretPair(a, b Tagged, tag string) []Doc {
+	a2, b2 := a, b
+	return []Doc{{tag + "-a", a}, {tag + "-b", b}, {tag + "-pa", &a2}, {tag + "-pb", &b2},
+		{tag + "-ma", map[string]interface{}{"t": a, "l": []Tagged{a}, "pl": []*Tagged{&a2}, "m": map[string]Tagged{"k": a}}},
+		{tag + "-mb", map[string]interface{}{"t": b, "l": []Tagged{b}, "pl": []*Tagged{&b2}, "m": map[string]Tagged{"k": b}}}}
 }
 
 func ip(i int) *int       { return &i }
@@ -245,6 +257,58 @@ func Wrapped() map[string]interface{} {
 	}
 }
 
+// Absent has a key "zz" missing under parents of every shape, and top-level keys holding the values used as
+// unknown values by the configurations (so that an expression can name "what the selector should read as").
+func Absent() map[string]interface{} {
+	type St struct {
+		A  int
+		M  map[string]int
+		PM *map[string]string
+	}
+	pm := map[string]string{"a": "x"}
+	return map[string]interface{}{
+		"m":     map[string]interface{}{"a": 1, "s": "x", "inner": map[string]interface{}{"b": 2}, "l": []interface{}{map[string]interface{}{"c": 3}}, "nilv": nil},
+		"ms":    map[string]string{"a": "x"},
+		"nm":    NMap{"q": 1},
+		"em":    map[string]int{},
+		"nilm":  map[string]int(nil),
+		"mi":    map[int]string{1: "one"},
+		"mif":   map[interface{}]int{"x": 1},
+		"pm":    &pm,
+		"st":    St{A: 1, M: map[string]int{"a": 1}, PM: &pm},
+		"pst":   &St{A: 2, M: map[string]int{}},
+		"l":     []interface{}{1, map[string]interface{}{"a": 1}},
+		"le":    []int{},
+		"s":     "scalar",
+		"n":     nil,
+		"np":    (*map[string]int)(nil),
+		"w":     Wrapper{Inner: map[string]interface{}{"a": 1}},
+		"u_str": "unk", "u_empty": "", "u_int": 0, "u_nil": nil, "u_list": []interface{}{"unk", 1}, "u_map": map[string]interface{}{"k": "v"},
+		"u_bool": true, "u_f64": 2.5,
+	}
+}
+
+// EqDoc has, for every scalar kind, values that short literal texts can denote and boundary values.
+func EqDoc() map[string]interface{} {
+	return map[string]interface{}{
+		"i0": 0, "i1": 1, "im1": -1, "i7": 7, "i9": 9, "i10": 10, "i15": 15, "i17": 17, "i63": int8(63), "i100": int16(100), "i255": int32(255), "i1k": int64(1000),
+		"i8min": int8(math.MinInt8), "i8max": int8(math.MaxInt8), "i16min": int16(math.MinInt16), "i32max": int32(math.MaxInt32), "i64min": int64(math.MinInt64),
+		"i64max": int64(math.MaxInt64), "i53": int64(1 << 53), "i53p": int64(1<<53 + 1), "ni": NInt(7), "pi": ip(7),
+		"u0": uint(0), "u1": uint8(1), "u7": uint16(7), "u9": uint32(9), "u10": uint64(10), "u15": uint(15), "u17": uint(17), "u255": uint8(255),
+		"u32max": uint32(math.MaxUint32), "u64max": uint64(math.MaxUint64), "u63": uint64(1 << 63), "u53p": uint64(1<<53 + 1), "nu": NUint8(7),
+		"f0": 0.0, "fm0": math.Copysign(0, -1), "f1": 1.0, "f7": 7.0, "f10": 10.0, "fp1": 0.1, "f15": 1.5, "f1e7": 1e7, "fmax": math.MaxFloat64, "fsub": 5e-324,
+		"f53p": float64(1<<53 + 2), "finf": math.Inf(1), "fnan": math.NaN(), "nf": NF64(7),
+		"g0": float32(0), "g1": float32(1), "g7": float32(7), "gp1": float32(0.1), "g16m": float32(16777216), "g16m2": float32(16777218), "gmax": float32(math.MaxFloat32),
+		"gsub": float32(1e-45), "g1n": math.Nextafter32(1, 2), "ng": NF32(1),
+		"bt": true, "bf": false, "nb": NBool(true), "pb": func() *bool { b := false; return &b }(),
+		"s": "s", "se": "", "s0": "0", "s1": "1", "st": "t", "sT": "T", "s01": "01", "su": "héllo", "sx": "0x1", "sn": NString("1"), "sq": "a\"b", "sb": "a\\b",
+		"snl": "a\nb", "stab": "\t", "snul": "a\x00b", "sbt": "`", "ssl": "/usr/bin", "ssp": " 1 ",
+		"j0": json.Number("0"), "j1": json.Number("1"), "j7": json.Number("7"), "j15": json.Number("1.5"), "j53p": json.Number("9007199254740993"),
+		"j64max": json.Number("9223372036854775807"), "j64over": json.Number("9223372036854775808"), "j1e1": json.Number("1e1"), "j017": json.Number("017"), "jneg": json.Number("-9007199254740993"),
+		"nil": nil, "l": []int{1}, "m": map[string]int{"1": 1}, "stc": struct{ A int }{1}, "ppi": pip(7), "any1": interface{}(int8(1)),
+	}
+}
+
 type Doc struct {
 	Name string
 	V    interface{}
@@ -267,6 +331,18 @@ func World(name string) []Doc {
 		return []Doc{{"tagged", t}, {"ptagged", &t}, {"mtagged", map[string]interface{}{"t": t, "l": []Tagged{t}}}}
 	case "wrapped":
 		return []Doc{{"wrapped", Wrapped()}}
+	case "kinds":
+		return Kinds()
+	case "secrets-bexpr":
+		return secretPair(NewTagged3("s3cr3t", "jay", "priv"), NewTagged3("0ther", "jay", "pri2"), "sb")
+	case "secrets-json":
+		return secretPair(NewTagged3("bee", "s3cr3t", "priv"), NewTagged3("bee", "0ther", "pri2"), "sj")
+	case "secrets-pointer":
+		return secretPair(NewTagged3("bee", "jay", "s3cr3t"), NewTagged3("bee", "jay", "0ther"), "sp")
+	case "absent":
+		return []Doc{{"absent", Absent()}}
+	case "eq":
+		return []Doc{{"eq", EqDoc()}}
 	}
 	return nil
 }
